@@ -58,6 +58,32 @@ Theorem C01_newton_loop_exits_early_small_e : forall e0 i r w m n b ts j,
 Proof. exact newton_loop_exits_early3. Qed.
 Print Assumptions C01_newton_loop_exits_early_small_e.
 
+(* the same for every eccentricity an accepted ordinary orbit can have (perigee >= 220 km and period < 225 min force e0 < 0.462):
+   for eL^2 <= 2209/10000 (eL <= 0.47) each step still squares the error (factor 132/100, P_Newton47.v), the clamp is still
+   inactive, and the SEVENTH stopping test cannot fail: the unchecked eleventh exit stays unreachable *)
+From PyOrb.proofs Require P_Newton47 P_Sgp4Newton47.
+Theorem C01_newton_step_quadratic_47 : forall X Y, X ^ 2 + Y ^ 2 <= 2209 / 10000 -> forall U E Es,
+  kf X Y Es = U -> Rabs (E - Es) <= 47 / 100 ->
+  Rabs (E + halley X Y U E - Es) <= 132 / 100 * (E - Es) ^ 2.
+Proof. exact P_Newton47.halley47_quadratic. Qed.
+Print Assumptions C01_newton_step_quadratic_47.
+
+Theorem C01_newton_loop_exits_by_seventh_test : forall e0 i r w m n b ts j,
+  gen_init_outcome e0 i r w m n b = InitMode NearNorm 1 ->
+  gen_nn1_prop_outcome e0 i r w m n b ts = PropOk j ->
+  eL2 (E e0 i r w m n b) (mkT false ts) (ecl e0 i r w m n b ts) <= 2209 / 10000 ->
+  (j <= 6)%nat.
+Proof. exact P_Sgp4Newton47.newton_loop_exits_by_seventh_test. Qed.
+Print Assumptions C01_newton_loop_exits_by_seventh_test.
+
+Theorem C01_newton_loop_exits_by_seventh_test_small_e : forall e0 i r w m n b ts j,
+  gen_init_outcome e0 i r w m n b = InitMode NearNorm 3 ->
+  gen_nn3_prop_outcome e0 i r w m n b ts = PropOk j ->
+  eL2 (E e0 i r w m n b) (mkT true ts) (ecl3 e0 i r w m n b ts) <= 2209 / 10000 ->
+  (j <= 6)%nat.
+Proof. exact P_Sgp4Newton47.newton_loop_exits_by_seventh_test3. Qed.
+Print Assumptions C01_newton_loop_exits_by_seventh_test_small_e.
+
 (* THE 1 mm / 1 um/s CLAIM with no hypothesis on the loop: every answered propagation (e0 > 1e-4) with a <= 4 earth radii and
    eL^2 <= 4/25 returns -- nn1_returned j being the six elements handed to kep2xyz when the loop is left at test j --
    a position within 1e-6 km and a velocity within 1e-9 km/s, per coordinate, of the report's at the unique exact solution
